@@ -222,13 +222,21 @@ impl MeasurementErrorEstimator {
     }
 
     fn measurement_variance(&self, config: &KalmanConfiguration) -> f64 {
-        if self.fill < config.difference_estimation_boundary {
+        // Identical samples (coarse timestamp granularity, a quiet point to
+        // point link) make the estimates below collapse to exactly zero. A
+        // filter without any measurement noise ends up with a Kalman gain of
+        // 0/0, so bound the estimate from below by (1 ns)^2.
+        const MIN_MEASUREMENT_VARIANCE: f64 = 1e-18;
+
+        let estimate = if self.fill < config.difference_estimation_boundary {
             sqr(config.steer_time.seconds())
         } else if self.fill < config.statistical_estimation_boundary {
             sqr(self.range_size())
         } else {
             self.variance() / 2.0
-        }
+        };
+
+        estimate.max(MIN_MEASUREMENT_VARIANCE)
     }
 
     fn peer_delay(&self) -> bool {
